@@ -111,7 +111,7 @@ impl Prop for C12 {
             v.push(format!("sens:{}:order1", r));
             v.push(format!("sens:{}:order2", r));
         }
-        for c in ["built:ad0", "built:ad1", "built:ad2", "nodes:float", "nodes:dual-with-foreign-names", "nodes:mixed-kinds", "index:with-base", "index:without-base", "index:before-first-node", "tags:checked", "outside-interval-zero", "node-count:up-to-10", "node-count:11-to-100", "node-count:more-than-100"] {
+        for c in ["built:ad0", "built:ad1", "built:ad2", "nodes:float", "nodes:dual-with-foreign-names", "nodes:mixed-kinds", "index:with-base", "index:without-base", "index:before-first-node", "tags:checked", "outside-interval-zero", "readers:names-requested-in-another-order", "node-count:up-to-10", "node-count:11-to-100", "node-count:more-than-100"] {
             v.push(c.to_string());
         }
         v
@@ -120,7 +120,7 @@ impl Prop for C12 {
         tier.pick(200_000, 20_000_000)
     }
     fn rule(&self) -> String {
-        "C11's curves (unsorted supply on purpose; mostly 2..8 nodes (thorough 2..14), one in eight with 12..26 and one in 128 with more than 100 nodes, so that node numbers in the tags have two and three digits) built through the Python-facing constructor with ad in {0,1,2} from float nodes, from Dual/Dual2 nodes carrying foreign variable names and coefficients, and from mixed kinds; random sequences of 1-8 derivative-order switches among 0,1,2. After every switch: ad() is right, every looked-up value is unchanged (<=4 ulp), node i (date order) of a float curve is tagged '<id><i>' with unit sensitivity, names survive 1<->2 switches, and gradient / Hessian of every looked-up value equal the derivatives of the rule's closed form w.r.t. the node values (reference AD with noise band; zero for nodes outside the interval). index_value = base/value, 0 before the first node, Err without a base. A history model (node values as reference numbers + current names) predicts every read. distinct_nontrivial = distinct (rule, node count, build order, node kind, switch sequence).".into()
+        "C11's curves (unsorted supply on purpose; mostly 2..8 nodes (thorough 2..14), one in eight with 12..26 and one in 128 with more than 100 nodes, so that node numbers in the tags have two and three digits) built through the Python-facing constructor with ad in {0,1,2} from float nodes, from Dual/Dual2 nodes carrying foreign variable names and coefficients, and from mixed kinds; random sequences of 1-8 derivative-order switches among 0,1,2. After every switch: ad() is right, every looked-up value is unchanged (<=4 ulp), node i (date order) of a float curve is tagged '<id><i>' with unit sensitivity, names survive 1<->2 switches, the library's own gradient1 / gradient2 readers asked for the names in another order than stored agree by name, and gradient / Hessian of every looked-up value equal the derivatives of the rule's closed form w.r.t. the node values (reference AD with noise band; zero for nodes outside the interval). index_value = base/value, 0 before the first node, Err without a base. A history model (node values as reference numbers + current names) predicts every read. distinct_nontrivial = distinct (rule, node count, build order, node kind, switch sequence).".into()
     }
     fn assumptions(&self) -> Vec<String> {
         vec![
@@ -358,6 +358,49 @@ impl Prop for C12 {
                                         "expected_hess": band.exact.h.iter().map(|((a, b), v)| (format!("{},{}", a, b), json!(v))).collect::<serde_json::Map<_, _>>()})),
                         );
                         return;
+                    }
+                    // the library's own readers, asked for the names the value carries in ANOTHER order than it stores
+                    // them (sorted, reverse-sorted: an interpolated value holds its two nodes right node first), give the
+                    // same derivatives by name
+                    {
+                        use rateslib::dual::{Gradient1, Gradient2};
+                        let sorted: Vec<String> = real.names().into_iter().collect();
+                        let mut reversed = sorted.clone();
+                        reversed.reverse();
+                        for req in [sorted, reversed] {
+                            if req.is_empty() {
+                                continue;
+                            }
+                            ctx.eval(1);
+                            ctx.asserted(1);
+                            ctx.class("readers:names-requested-in-another-order");
+                            let (g1, g2): (Vec<f64>, Option<Vec<Vec<f64>>>) = match &got {
+                                Number::Dual(d) => (d.gradient1(req.clone()).to_vec(), None),
+                                Number::Dual2(d) => {
+                                    let h = d.gradient2(req.clone());
+                                    (d.gradient1(req.clone()).to_vec(), Some((0..req.len()).map(|i| (0..req.len()).map(|j| h[[i, j]]).collect()).collect()))
+                                }
+                                Number::F64(_) => (vec![], None),
+                            };
+                            let same = |a: f64, b: f64| a == b || crate::util::close_ulps(a, b, 2, 0.0) || (a.is_nan() && b.is_nan());
+                            let mut bad = g1.len() != req.len() || req.iter().enumerate().any(|(i, a)| !same(g1[i], real.gd(a)));
+                            if let Some(h) = &g2 {
+                                for (i, a) in req.iter().enumerate() {
+                                    for (j, b) in req.iter().enumerate() {
+                                        if !same(h[i][j], real.hd(a, b)) {
+                                            bad = true;
+                                        }
+                                    }
+                                }
+                            }
+                            if bad {
+                                ctx.violation(
+                                    &format!("C12|readers|derivatives-by-name-differ|order{}", model.order),
+                                    case(json!({"sequence": seq, "query": dt.to_string(), "requested": req, "value": nj(&got), "gradient1": g1, "gradient2": g2})),
+                                );
+                                return;
+                            }
+                        }
                     }
                     // zero for nodes outside the interval used (float curves: one variable per node)
                     if node_kind == "float" {
